@@ -55,13 +55,37 @@ CHECKS = {
   text="Bounded symbolic model checking of the filter-to-SQL builders: for 16 (listing, key, operator) cases the client text — as value, and as the bracketed part of metadata[...] / balance[...] keys — is an arbitrary byte string of length 0..3 (thorough 4); the real accountQueryContext, transactionQueryContext, the matcher closures of GetAggregatedBalances and logsQueryBuilder and filterAccountAddress* build the clause, which must tokenise (SQL token kinds, plus JSON/jsonpath token kinds inside literals) exactly like the clause for a harmless string of the same shape, unless the request is rejected.",
   note="bun's escaping of bound arguments is a library contract and not encoded; backslash is assumed literal inside SQL quotes (standard_conforming_strings). The scanner in the harness is the oracle.",
   ref="DESIGN §5 C20"),
+ "C02": dict(
+  text="Bounded symbolic model checking with schedules as decisions: the real Commander, DefaultLocker, Referencer, Batcher and job.Runner run on engine threads with a Yield before every statement (overlay instrumentation); two concurrent sends from one account — the source named literally, by an account variable, or through meta() — with symbolic opening balance and amounts; after quiescence the persisted log is replayed in order and every posting must be covered at its position (z3 finds 'both accepted and a1+a2 > balance' otherwise), and every Lock call must carry the resolved source in its write set.",
+  note="Bound: pre-emption budget 1 (thorough 2) at statement boundaries of the instrumented files, switches forced by blocking resolved deterministically (lowest thread id); each Store call atomic; InMemoryStore stands for the database. Counterexample schedules are replayed natively by a schedule controller (goroutine gating at the same yields).",
+  ref="DESIGN §5 C02"),
+ "C05": dict(
+  text="Bounded symbolic model checking with schedules and one crash as decisions: 2 (thorough 3) concurrent writes of all kinds from a symbolic tail (L, N), the process may stop at any statement boundary, then a new Commander is initialised on the same store and writes again; log ids L+1.. in insertion order, every hash recomputed from its predecessor (sha256 as injective token, JSON model), transaction ids N+1.. in log order — before and after the restart.",
+  note="Bound: pre-emption budget 1 (thorough 2) at statement boundaries of the instrumented files, switches forced by blocking resolved deterministically (lowest thread id); each Store call atomic; InMemoryStore stands for the database. Counterexample schedules are replayed natively by a schedule controller (goroutine gating at the same yields).",
+  ref="DESIGN §5 C05"),
+ "C06": dict(
+  text="Bounded symbolic model checking with schedules, one crash and an InsertLogs fault as decisions/variables: at the instant a write returns success its marker must already be in the persisted log (asserted inside the client thread), acknowledged writes and log entries are in bijection at quiescence, failed or cut-off writes leave at most nothing/one entry, no entry without a request; an injected InsertLogs failure stops the process without acknowledging.",
+  note="Bound: pre-emption budget 1 (thorough 2) at statement boundaries of the instrumented files, switches forced by blocking resolved deterministically (lowest thread id); each Store call atomic; InMemoryStore stands for the database. Counterexample schedules are replayed natively by a schedule controller (goroutine gating at the same yields). A failing InsertLogs persists nothing (one database transaction per batch).",
+  ref="DESIGN §5 C06"),
+ "C07": dict(
+  text="Bounded symbolic model checking with schedules and one crash: two concurrent writes sharing an idempotency key (create/create, metadata/metadata, create/metadata, revert/revert), then stop-or-crash, restart and a retry with the same key; at most one log entry carries the key and all successful responses name the same transaction.",
+  note="Bound: pre-emption budget 1 (thorough 2) at statement boundaries of the instrumented files, switches forced by blocking resolved deterministically (lowest thread id); each Store call atomic; InMemoryStore stands for the database. Counterexample schedules are replayed natively by a schedule controller (goroutine gating at the same yields).",
+  ref="DESIGN §5 C07"),
+ "C11": dict(
+  text="Bounded symbolic model checking with schedules: 2-3 concurrent creates sharing a reference (sourced from a locked account or from @world only, optionally with a concurrent dry run carrying the same reference), then a later create with that reference; at most one committed transaction carries it, accepted requests = committed transactions, the later request is rejected with a conflict.",
+  note="Bound: pre-emption budget 1 (thorough 2) at statement boundaries of the instrumented files, switches forced by blocking resolved deterministically (lowest thread id); each Store call atomic; InMemoryStore stands for the database. Counterexample schedules are replayed natively by a schedule controller (goroutine gating at the same yields).",
+  ref="DESIGN §5 C11"),
+ "C15": dict(
+  text="Bounded symbolic model checking of the lock manager alone: 14 populations of 2-3 requests with read/write sets over two accounts, optionally one request cancelled by a separate thread at an arbitrary moment; every schedule with at most 1 (thorough 2) pre-emptions at statement boundaries of lock.go and linked_list.go, all blocking switches and select choices explored; exclusion when Lock returns, progress and no leftover lock or queued intent at quiescence.",
+  note="The inputs are schedules and cancellation moments (decisions); the solver's part is feasibility. Counterexample schedules are replayed natively by the schedule controller.",
+  ref="DESIGN §5 C15"),
 }
 
 NA = {
  "C04": "the projection of logs into balances/volumes is PL/pgSQL executed by PostgreSQL; there is no Go code to encode and no PostgreSQL in the sandbox (DESIGN §6)",
 }
 
-PENDING = {'C02': 'check under construction in this session (engine built; harness not yet registered) — listed here until its check runs clean', 'C05': 'check under construction in this session (engine built; harness not yet registered) — listed here until its check runs clean', 'C06': 'check under construction in this session (engine built; harness not yet registered) — listed here until its check runs clean', 'C07': 'check under construction in this session (engine built; harness not yet registered) — listed here until its check runs clean', 'C11': 'check under construction in this session (engine built; harness not yet registered) — listed here until its check runs clean', 'C15': 'check under construction in this session (engine built; harness not yet registered) — listed here until its check runs clean', 'C17': 'check under construction in this session (engine built; harness not yet registered) — listed here until its check runs clean', }
+PENDING = {'C17': 'check under construction in this session (engine built; harness not yet registered) — listed here until its check runs clean', }
 
 def main():
     checks = []
